@@ -90,7 +90,7 @@ def distribution(cases):
          # non-ASCII byte on its own line (byte column != rune column), after a VALID multi-byte character,
          # on a line > 1, and the largest difference between byte column and rendered column
          "error_after_nonascii_on_line": 0, "error_after_valid_multibyte_on_line": 0, "error_on_later_line": 0,
-         "max_bytecol_minus_col": 0, "rendered_positions": 0}
+         "max_bytecol_minus_col": 0, "bytecol_outside_line": 0, "rendered_positions": 0}
     tags = {"(T ": "transaction", "(O ": "open", "(C ": "close", "(A ": "assertion", "(P ": "price", "(I ": "include"}
     for c in cases:
         if c.op != "C07.parse":
@@ -133,6 +133,14 @@ def distribution(cases):
             if multi > 0:
                 d["error_after_valid_multibyte_on_line"] += 1
                 d["max_bytecol_minus_col"] = max(d["max_bytecol_minus_col"], multi)
+            # a byte-counting column (1 + bytes since the last newline) would exceed the line's runes + 1
+            for e in ends:
+                ls = raw.rfind(b"\n", 0, e) + 1
+                le = raw.find(b"\n", e)
+                le = len(raw) if le < 0 else le
+                if e - ls + 1 > len(raw[ls:le].decode("utf-8", "replace")) + 1:
+                    d["bytecol_outside_line"] += 1
+                    break
             if any(b"\n" in raw[:e] for e in ends):
                 d["error_on_later_line"] += 1
         else:
